@@ -108,6 +108,12 @@ def annotate(prog) -> List[Any]:
                     st["cells"] += 1
                 elif dest[0] == "aa":
                     node["dest"] = ("aa", dest[1])
+                elif dest[0] == "lastreg":
+                    # measurement into a register handle that exists already (measure(future=<RegFuture>))
+                    if st["lastreg"] is None:
+                        raise Skip()
+                    node["dest"] = ("cell", st["lastreg"])
+                    node["into_existing"] = True
                 out.append(node)
             elif k == "newreg":
                 # conn.builder.new_register(init): a register the host holds on to
@@ -369,6 +375,8 @@ class Real:
                     q.measure(future=self.locs[(d[1], d[2])])
                 elif d[0] == "arr":
                     q.measure(future=self.A0.get_future_index(env["i"]))
+                elif d[0] == "cell" and n.get("into_existing"):
+                    q.measure(future=self.cells[d[1]])
                 elif d[0] == "cell":
                     r = q.measure(store_array=False)
                     self.cells[d[1]] = r
@@ -506,8 +514,10 @@ def _regs_stay_in_segment(tree, flushes) -> bool:
     def walk(ns, seg):
         nonlocal ok
         for n in ns:
-            if n["k"] in ("m", "newreg") and n["dest"][0] == "cell":
+            if n["k"] in ("m", "newreg") and n["dest"][0] == "cell" and not n.get("into_existing"):
                 seg_of_cell[n["dest"][1]] = seg
+            elif n["k"] == "m" and n.get("into_existing") and seg_of_cell.get(n["dest"][1]) != seg:
+                ok = False
             for key in ("a", "b", "target", "operand"):
                 o = n.get(key)
                 if isinstance(o, tuple) and o[0] == "cell" and seg_of_cell.get(o[1]) != seg:
@@ -871,6 +881,26 @@ def extra_programs():
         for x in pool_small():
             out.append((p + [x], [set(), {0}], [INITS[0], INITS[2]]))
             out.append(([x] + p, [set(), {0}], [INITS[0]]))
+    # conditionals and loops whose body emits nothing (what was queued before them must survive)
+    firsts = [("gp", "x"), ("m", "1", ("arr", 0)), ("add", ("arr", 0), 1, None), ("m", "+", ("new",))]
+    for x in firsts:
+        for style in ("ctx", "cb"):
+            for cmp, a, b in (("eq", ("arr", 0), 1), ("nz", ("arr", 1), None), ("lt", ("arr", 0), ("arr", 1)), ("ge", ("arr", 1), 1)):
+                empty = ("if", cmp, a, b, style, [])
+                out.append(([x, empty], [set()], [INITS[0], INITS[1]]))
+                out.append(([x, empty, ("add", ("arr", 1), 1, None)], [set(), {1}], [INITS[0]]))
+        out.append(([x, ("loop", 2, "ctx", [])], [set()], [INITS[0]]))
+        out.append(([x, ("loop", 2, "fn", []), ("gp", "h")], [set()], [INITS[0]]))
+        out.append(([x, ("foreach", [])], [set()], [INITS[0]]))
+    # a second (third) measurement into a register handle that already holds a register
+    for p1 in ("+", "1", "0"):
+        for p2 in ("+", "1", "0"):
+            base = [("m", p1, ("reg",)), ("m", p2, ("lastreg",))]
+            out.append((base, [set()], [INITS[0]]))
+            out.append((base + [("if", "eq", ("lastreg",), 1, "ctx", [("gp", "x")])], [set()], [INITS[0]]))
+            out.append((base + [("add", ("arr", 0), ("lastreg",), None)], [set()], [INITS[0]]))
+            out.append((base + [("m", p1, ("lastreg",)), ("if", "nz", ("lastreg",), None, "cb", [("gp", "h")])], [set()], [INITS[0]]))
+    out.append(([("newreg", 0), ("m", "1", ("lastreg",)), ("add", ("arr", 0), ("lastreg",), None)], [set()], [INITS[0]]))
     # additions of 0 with a modulus (a "nothing to add" shortcut must still reduce), on array entries and registers
     for mod in (1, 2, 3):
         out.append(([("add", ("arr", 0), 0, mod)], [set()], INITS))
